@@ -7,6 +7,7 @@ IsEmpty shortcut (known_findings.json, fixed) — with no exclusion.
 -/
 import KinModel.Schema.Spec
 import KinModel.Schema.History
+import KinModel.Schema.Pattern
 import KinModel.Gen.PatternCache
 namespace KinModel.Schema
 
@@ -838,6 +839,142 @@ theorem history_independent_sat (pre : List Call) (k : Call) (post : List Call) 
 example : (({ regex := fun _ _ => some true, strFormat := fun _ _ => none } : Env).withCache
     (fun p => if p = "^a" then some (fun _ => false) else none)).regex "^a" "abc" = some false := by
   simp [Env.withCache]
+
+/-! ### the pattern translation `intoGoRegexp` inside the model -/
+
+
+theorem lookup_pats {k : String} {s : S} : ∀ {p : List (String × S)}, lookup k p = some s → ∀ x ∈ s.pats, x ∈ patsP p
+  | [], h => by simp [lookup] at h
+  | (k0, s0) :: ps, h => by
+    intro x hx
+    simp only [lookup] at h
+    simp only [patsP, List.mem_append]
+    split at h
+    · cases h; exact Or.inl hx
+    · exact Or.inr (lookup_pats h x hx)
+
+/-- the verdict depends on the regex oracle only at the schema's own patterns -/
+theorem visit_regex_congr_all (env : Env) (r' : String → String → Option Bool) :
+    (∀ s v, (∀ p ∈ s.pats, env.regex p = r' p) → visit env s v = visit { env with regex := r' } s v) ∧
+    (∀ p ad has kvs, (∀ x ∈ patsP p ++ patsO ad, env.regex x = r' x) →
+        visitProps env p ad has kvs = visitProps { env with regex := r' } p ad has kvs) ∧
+    (∀ s xs, (∀ p ∈ s.pats, env.regex p = r' p) → visitItems env s xs = visitItems { env with regex := r' } s xs) ∧
+    (∀ ss v, (∀ p ∈ patsL ss, env.regex p = r' p) → visitAll env ss v = visitAll { env with regex := r' } ss v) ∧
+    (∀ ss v, (∀ p ∈ patsL ss, env.regex p = r' p) → visitAny env ss v = visitAny { env with regex := r' } ss v) ∧
+    (∀ dr ss v, (∀ p ∈ patsL ss, env.regex p = r' p) → countOK env dr ss v = countOK { env with regex := r' } dr ss v) := by
+  refine visit.mutual_induct
+    (motive1 := fun s v => (∀ p ∈ s.pats, env.regex p = r' p) → visit env s v = visit { env with regex := r' } s v)
+    (motive2 := fun p ad has kvs => (∀ x ∈ patsP p ++ patsO ad, env.regex x = r' x) →
+        visitProps env p ad has kvs = visitProps { env with regex := r' } p ad has kvs)
+    (motive3 := fun s xs => (∀ p ∈ s.pats, env.regex p = r' p) → visitItems env s xs = visitItems { env with regex := r' } s xs)
+    (motive4 := fun ss v => (∀ p ∈ patsL ss, env.regex p = r' p) → visitAll env ss v = visitAll { env with regex := r' } ss v)
+    (motive5 := fun ss v => (∀ p ∈ patsL ss, env.regex p = r' p) → visitAny env ss v = visitAny { env with regex := r' } ss v)
+    (motive6 := fun dr ss v => (∀ p ∈ patsL ss, env.regex p = r' p) → countOK env dr ss v = countOK { env with regex := r' } dr ss v)
+    ?node ?pnil ?pcons ?inil ?icons ?anil ?acons ?ynil ?ycons ?cnil ?ccons
+  case node =>
+    intro kw a b c n i p ad v ihn ih6 ih5 ih4 ihc h
+    simp only [S.pats, List.mem_cons, List.mem_append, forall_eq_or_imp] at h
+    obtain ⟨hk, hrest⟩ := h
+    rw [visit.eq_def, visit.eq_def]
+    simp only
+    have hstr : ∀ x, strOK env kw x = strOK { env with regex := r' } kw x := by
+      intro x; simp only [strOK, hk]
+    have hreq : ∀ kvs, reqOK env p kvs = reqOK { env with regex := r' } p kvs := by
+      intro kvs; funext k; simp [reqOK, exempt]
+    have hown : ∀ rc, ownOK env kw p v rc = ownOK { env with regex := r' } kw p v rc := by
+      intro rc; cases v <;> simp [ownOK, hstr, objOK, roBad, forbidden, hreq]
+    have hc := ih6 (fun q hq => hrest q (by simp [hq]))
+    have hb := ih5 (fun q hq => hrest q (by simp [hq]))
+    have ha := ih4 (fun q hq => hrest q (by simp [hq]))
+    have hcomb : ∀ sc x1 x2 x3 x4 x5, combine env kw a b c p sc v x1 x2 x3 x4 x5 =
+        combine { env with regex := r' } kw a b c p sc v x1 x2 x3 x4 x5 := by
+      intros; unfold combine; simp only [hown]
+    rw [hcomb, hc, hb, ha]
+    congr 1
+    · cases n with
+      | none => rfl
+      | some t =>
+        simp only at ihn ⊢
+        rw [ihn (fun q hq => hrest q (by simp [patsO, hq]))]
+    · cases v with
+      | arr xs =>
+        cases i with
+        | none => rfl
+        | some t => simp only at ihc ⊢; rw [ihc (fun q hq => hrest q (by simp [patsO, hq]))]
+      | obj kvs =>
+        simp only at ihc ⊢
+        rw [ihc (fun q hq => hrest q (by
+          rcases List.mem_append.mp hq with h | h
+          · simp [h]
+          · simp [h]))]
+      | null => rfl
+      | bool _ => rfl
+      | num _ => rfl
+      | str _ => rfl
+  case pnil => intro p ad has _; simp [visitProps]
+  case pcons =>
+    intro p ad has k x r ih1 ih2 ih3 h
+    rw [visitProps.eq_def, visitProps.eq_def]
+    simp only
+    rw [ih3 h]
+    congr 2
+    · cases hl : lookup k p with
+      | none => rfl
+      | some s =>
+        simp only
+        rw [ih1 s (fun q hq => h q (List.mem_append.mpr (Or.inl (lookup_pats hl q hq))))]
+    · cases ad with
+      | none => rfl
+      | some s =>
+        simp only at ih2 ⊢
+        rw [ih2 (fun q hq => h q (List.mem_append.mpr (Or.inr (by simpa [patsO] using hq))))]
+  case inil => intro s _; simp [visitItems]
+  case icons => intro s x xs ih1 ih2 h; rw [visitItems, visitItems, ih1 h, ih2 h]
+  case anil => intro v _; simp [visitAll]
+  case acons =>
+    intro s ss v ih1 ih2 h
+    simp only [patsL, List.mem_append] at h
+    rw [visitAll, visitAll, ih1 (fun q hq => h q (Or.inl hq)), ih2 (fun q hq => h q (Or.inr hq))]
+  case ynil => intro v _; simp [visitAny]
+  case ycons =>
+    intro s ss v ih1 ih2 h
+    simp only [patsL, List.mem_append] at h
+    rw [visitAny, visitAny, ih1 (fun q hq => h q (Or.inl hq)), ih2 (fun q hq => h q (Or.inr hq))]
+  case cnil => intro dr v _; simp [countOK]
+  case ccons =>
+    intro dr s ss v ih1 ih2 h
+    simp only [patsL, List.mem_append] at h
+    rw [countOK, countOK, ih1 (fun q hq => h q (Or.inl hq)), ih2 (fun q hq => h q (Or.inr hq))]
+
+theorem visit_regex_congr (env : Env) (r' : String → String → Option Bool) (s : S) (v : J)
+    (h : ∀ p ∈ s.pats, env.regex p = r' p) : visit env s v = visit { env with regex := r' } s v :=
+  (visit_regex_congr_all env r').1 s v h
+
+/-- **C01 with the pattern translation inside the model.** With the default engine the validator asks Go's regexp about
+`intoGo pattern`; the property reads the pattern as ECMA-262 (`ecmaToGo`). For every schema none of whose patterns is
+in the class `patternTranslationDiffers`, validation with the library's translation accepts exactly the values that
+satisfy the schema under the ECMA reading. -/
+theorem visit_iff_sat_ecma_partial (env : Env) (go : String → String → Option Bool) (s : S) (v : J)
+    (hx : ∀ p ∈ s.pats, patternTranslationDiffers p = false) :
+    visit (env.viaGo go intoGo) s v = true ↔ Sat (env.viaGo go ecmaToGo) s v := by
+  rw [← visit_iff_sat]
+  have : visit (env.viaGo go intoGo) s v = visit { env.viaGo go intoGo with regex := fun p x => go (ecmaToGo p) x } s v := by
+    apply visit_regex_congr
+    intro p hp
+    have := hx p hp
+    simp only [patternTranslationDiffers, bne_eq_false_iff_eq] at this
+    simp only [Env.viaGo, intoGo, ecmaToGo, this]
+  rw [this]
+  rfl
+
+/-- F-C01-1: lower-case hex digits — `^\u00e9$` is handed to Go untouched (Go: invalid escape, nothing matches) -/
+theorem F_C01_1_witness : patternTranslationDiffers "^\\u00e9$" = true := by decide
+/-- F-C01-2: the backslash of `\\u00E9` is itself escaped (ECMA: a literal backslash, then the letters u00E9) — rewritten all the same -/
+theorem F_C01_2_witness : patternTranslationDiffers "^\\\\u00E9$" = true := by decide
+/-- non-vacuity: the intended use, upper-case hex after a real backslash, and patterns without escapes, are translated as read -/
+example : patternTranslationDiffers "^\\u00E9[a-z]+$" = false ∧ patternTranslationDiffers "^a.{2}$" = false ∧
+    patternTranslationDiffers "^\\\\\\u00E9\\d$" = false := by decide
+
 
 /-! ### non-vacuity: concrete schemas and values on both sides of the equivalence -/
 
